@@ -66,8 +66,9 @@ def inline_candidates(P):
         rel = P.rels[n]
         if rel.kind != "idb" or rel.output or rel.recursive or n in used_agg or n in neg_wild:
             continue
-        if any(isinstance(t, dlgen.RecT) for t in rel.types):
-            continue   # known finding F20 (inline + record-typed attribute asserts in BindingStore); probed separately
+        if any(isinstance(t, dlgen.RecT) for t in rel.types) and any(
+                isinstance(a, Const) and a.val is None for r in P.rules_of(n) for a in r.head.args):
+            continue   # known finding F28 (inlined head holds nil, a use site holds a record pattern); probed separately
         if n in used_neg:
             ok = True
             for r in P.rules_of(n):
@@ -340,6 +341,9 @@ def known_match(case, v):
     if "RemoveRedundantRelationsTransformer" in args and "inline" in (case.get("marks") or {}).values() \
             and "variable not grounded" in v["msg"]:
         return ([f for f in common.findings_for(PID) if f["key"] == "F18"] or [None])[0]
+    if "variable not grounded" in v["msg"] and "inline" in (case.get("marks") or {}).values() and "nil" in case.get("variant", {}).get("program", "") \
+            and ".type" in case.get("variant", {}).get("program", ""):
+        return ([f for f in common.findings_for(PID) if f["key"] == "F28"] or [None])[0]
     if "expected args to be variables" in v["msg"] and "inline" in (case.get("marks") or {}).values() \
             and ".type" in case.get("variant", {}).get("program", ""):
         return ([f for f in common.findings_for(PID) if f["key"] == "F20"] or [None])[0]
@@ -361,9 +365,25 @@ r2([0, 0], [0, 0]) :- r1(v16, v17), e0(v18, v19).
 '''
 
 
+F28_PROGRAM = '''.type Rec0 = [f0:float, f1:number, f2:float]
+.type Rec1 = [f0:number, f1:float]
+.decl e1(a0:number, a1:number)
+e1(3, 0).
+.decl r0(a0:Rec0) inline
+.decl r1(a0:Rec1)
+.output r1
+r0(nil) :- e1(v1, 0).
+r1([v7, 0.0]) :- r0(nil), r0([v6, v7, v8]), 0 != v7.
+'''
+
+
 def probes(st, tier, seed):
     """re-test the known trigger; print KNOWN-FINDING only while it still fails"""
     for f in common.findings_for(PID):
+        if f["key"] == "F28":
+            res = runner.run_program(F28_PROGRAM, {})
+            if res.rr.rc not in (0, None) and "variable not grounded" in res.rr.err:
+                st.known_lines.append(f["what"])
         if f["key"] == "F20":
             res = runner.run_program(F20_PROGRAM, {})
             if res.rr.rc not in (0, None) and "expected args to be variables" in res.rr.err:
@@ -372,6 +392,40 @@ def probes(st, tier, seed):
             res = runner.run_program(F18_PROGRAM, {}, args=["--disable-transformers=RemoveRedundantRelationsTransformer"])
             if res.rr.rc not in (0, None) and "variable not grounded" in res.rr.err:
                 st.known_lines.append(f["what"])
+
+
+# saved inputs of repaired defects (regression tier: they must run, and give the same outputs as with every optional pass disabled
+# where stated)
+REGRESSIONS = [
+    ("F20 (inline + record head, consumer no_inline)", F20_PROGRAM, []),
+    ("inlined atom inside a no_inline relation", ".decl r2(a0:number) inline\n.decl xk3(a0:number) no_inline\n.decl o(a0:number)\n.output o\n"
+     "xk3(c) :- r2(c).\no(x) :- xk3(x).\nr2(-1).\n", []),
+    ("ReduceExistentials below a nullary recursive clause", ".decl e2(a0:number)\ne2(0).\n.decl r1(a0:number)\n.output r1\n.decl r2()\n"
+     "r1(0) :- r2().\nr2() :- r1(v6).\nr2() :- r2(), r2(), e2(v7), 0 != v7.\n", ["--disable-transformers=MinimiseProgramTransformer"]),
+    ("negative value substituted into an unsigned cast", ".decl e(x:number)\ne(1). e(-5).\n.decl r(x:number)\n.output r\n"
+     "r(x) :- e(x), y = -1, as(x, unsigned) <= as(y, unsigned).\n", []),
+]
+
+
+def regressions(st):
+    for name, prog, args in REGRESSIONS:
+        res = runner.run_program(prog, {}, args=args)
+        st.classes["regression_inputs_of_repaired_defects"] += 1
+        if res.rr.timeout:
+            continue
+        if res.rr.rc != 0:
+            st.violations.append({"case": {"program": prog, "facts": {}, "base": {"args": []}, "variant": {"args": args}, "relations": [],
+                                           "marks": {}, "marks_used": [], "regression": name},
+                                  "msg": "regression input of a repaired defect fails again (%s): rc=%s\n%s" % (name, res.rr.rc, res.rr.err[-600:]),
+                                  "selfevident": True})
+
+
+_probes_known = probes
+
+
+def probes(st, tier, seed):   # noqa: F811
+    _probes_known(st, tier, seed)
+    regressions(st)
 
 
 CHECK = PCheck(PID, RULE, gen, judge, quick=2000, thorough=40000, floor=50, known_match=known_match, probes=probes,
